@@ -414,6 +414,10 @@ class Session:
             sel_m = m if via_h else mfilter
             keys = list(op.get("keys") or [])
             out.exp = mdl.get_tag_values(keys, sel_m)
+            if keys and op.get("keys_form") == "tuple":
+                keys = tuple(keys)
+            elif keys and op.get("keys_form") == "gen":
+                keys = (k_ for k_ in list(keys))
             if via_h:
                 out.real = self._call(tgt.get_tag_values, keys) if keys else self._call(tgt.get_tag_values)
             else:
